@@ -39,6 +39,7 @@ import numpy as np
 from .. import domain as D
 from .. import pipeline as P
 from ..core import h64, vacuity
+from .c14 import guarded_run_cases
 
 LEVEL = 'fault_enumeration'
 RULE = ('for every seed document (library-written JSON / HDF5 of a domain table with a vocabulary type) '
@@ -1020,7 +1021,6 @@ def cli_statuses(run, tmp):
     """thorough tier: a handful of real `biom validate-table` processes; the exit status must
     agree with the in-process verdict"""
     import h5py
-    from ..core import Acc
     acc = run.acc
     js, hs = mutation_seeds(run.tier, run.seed)
     files = []
@@ -1063,7 +1063,7 @@ def cli_statuses(run, tmp):
 def run(run):
     import tempfile
     cs = cases(run.tier, run.seed)
-    P.run_cases(run, cs, check, nchunks=256)
+    complete = guarded_run_cases(run, cs, check, nchunks=256)
     if run.tier == 'thorough':
         tmp = tempfile.mkdtemp(prefix='verif-c15-cli-')
         try:
@@ -1080,7 +1080,7 @@ def run(run):
     need += ['applied-second:json:' + o.name for o in jo] + ['applied-second:hdf5:' + o.name for o in ho]
     if run.tier == 'thorough':
         need.append('clause:cli-exit-status')
-    vacuity(run, need)
+    vacuity(run, need if complete else [])
 
     def table(fmt, ops):
         out = {}
